@@ -110,6 +110,7 @@ type Machine struct {
 	stdin, stdout        []value
 	stdinChunk           int
 	fixedNow             uint64
+	undecidedEq          int
 	hexModel             bool
 	rawCRC               bool
 	entry                func(g *G)
